@@ -420,6 +420,12 @@ def gen_tree(rng, tid, tier, flavour="plain"):
         for f in own:
             if rng.random() < p_default and not (mode == "distinct" and f["name"].startswith("u") and rng.random() < 0.8):
                 f["dflt"], f["dv"] = rng.choice(["const", "const", "factory"]), rng.choice([0, 1])
+        for f in own:
+            # a dataclass that re-declares an inherited attribute WITHOUT a value keeps the ancestor's plain default (the
+            # class attribute is found by getattr), so "required" would misdescribe the class: re-declare with the default
+            inh = next((g for g in inherited if g["name"] == f["name"]), None)
+            if inh is not None and f["dflt"] == "req" and inh["dflt"] == "const":
+                f["dflt"], f["dv"] = "const", inh["dv"]
         if literal:
             if ci == 0:
                 own.append(_fld(LIT_NAME, lit=rng.sample(lit_vals, rng.choice([1, 1, 2]))))
